@@ -6,6 +6,12 @@ pub open spec fn pm_inv(s: Storage) -> bool {
     forall|id: Seq<char>| #![auto] s.pools@.dom().contains(id) ==> pool_wf(s.pools@[id]) && s.pools@[id].pool_identifier@ == id
 }
 
+/// everything except the pool records is unchanged
+pub open spec fn non_pool_state_eq(a: Storage, b: Storage) -> bool {
+    a.config == b.config && a.pool_counter == b.pool_counter && a.ssl_buffer == b.ssl_buffer
+    && a.owner == b.owner && a.pending_owner == b.pending_owner && a.pending_expiry == b.pending_expiry
+}
+
 /// the result of `compute_swap` as a function of its arguments (purity of safe Rust without interior mutability: ASSUMED)
 pub uninterp spec fn compute_swap_fn(p: PoolInfo, offer: Coin, ask: Seq<char>) -> Result<SwapComputation, ContractError>;
 
